@@ -15,7 +15,7 @@ from ..core import Machine, rs
 
 from menpo.image import Image
 from menpo.shape import PointCloud, TriMesh
-from menpo.transform import (Affine, NonUniformScale, Rotation, Scale, TransformChain, Translation, UniformScale,
+from menpo.transform import (Affine, Homogeneous, NonUniformScale, Rotation, Scale, TransformChain, Translation, UniformScale,
                              image_coords_to_tcoords, rotate_ccw_about_centre, scale_about_centre,
                              shear_about_centre, tcoords_to_image_coords, transform_about_centre)
 from .. import walker
@@ -78,7 +78,7 @@ class RotationRng(Machine):
                        "negative_angle", "beyond_one_turn", "radians", "tcoords", "returned_transform_mutated",
                        "about_centre_scale", "about_centre_rotate", "about_centre_shear", "about_centre_transform",
                        "scale_factory", "scale_factory_zero_refused", "passed_array_mutated",
-                       "radians_beyond_360", "quat_from_existing_rotation", "quat_from_integer_matrix_rotation", "about_centre_with_a_chain", "about_centre_chain_used_again", "about_centre_per_axis_scale", "scale_factory_opposite_signs", "centre_with_zero_coordinate",
+                       "radians_beyond_360", "quat_from_existing_rotation", "quat_from_integer_matrix_rotation", "about_centre_with_a_chain", "about_centre_chain_used_again", "about_centre_with_a_projective_map", "constructor_result_used_in_about_a_point_idiom", "about_centre_per_axis_scale", "scale_factory_opposite_signs", "centre_with_zero_coordinate",
                        "scale_factory_scalar_zero")
 
     @classmethod
@@ -158,6 +158,8 @@ class RotationRng(Machine):
             ctx.probe("ccw2d")
             self._cmp(r, ref, "ccw_constructor", "2d")
             self._probes(deg, in_deg)
+            if op["turns"] % 2:
+                self._used_about_a_point(r, 2, rs(op["frac"] + 7), "ccw_constructor")
             self.pool.append((r, ref, self._meta(2, "z", deg)))
         elif k == "ccw3d":
             deg = angle_from(op)
@@ -172,6 +174,8 @@ class RotationRng(Machine):
             ctx.probe("ccw3d_" + "xyz"[ax])
             self._cmp(r, ref, "ccw_constructor", "3d_" + "xyz"[ax])
             self._probes(deg, in_deg)
+            if op["turns"] % 2:
+                self._used_about_a_point(r, 3, rs(op["frac"] + 7), "ccw_constructor")
             self.pool.append((r, ref, self._meta(3, "xyz"[ax], deg)))
         elif k in ("quat", "general3d"):
             g = rs(op["data"])
@@ -399,6 +403,27 @@ class RotationRng(Machine):
                                     % (len(chain.transforms), probe_pts[0].tolist(), plain_after[0].tolist(), plain_before[0].tolist()))
                 ctx.probe("about_centre_with_a_chain")
                 name, off = "transform", np.zeros(d)
+            elif op["frac"] % 3 == 2:
+                # a projective map that fixes the origin: about the centre it fixes the centre and acts on offsets as
+                # the plain map does (x -> L x / (p.x + 1))
+                Hm = np.eye(d + 1)
+                Hm[:d, :d] = g.uniform(-1, 1, size=(d, d)) + 2 * np.eye(d)
+                Hm[d, :d] = g.uniform(-0.02, 0.02, size=d)
+                t = transform_about_centre(obj, Homogeneous(Hm.copy()))
+                ctx.probe("about_centre_with_a_projective_map")
+                v = g.uniform(-5, 5, size=(4, d))
+                got_c = np.asarray(t.apply(c[None, :].copy()))[0]
+                err = float(np.abs(got_c - c).max())
+                ctx.require(err < 1e-8 * (1 + np.abs(c).max()), "about_centre", "centre_not_fixed_projective",
+                            lambda: "the centre %r moves to %r" % (c.tolist(), got_c.tolist()))
+                got = np.asarray(t.apply(c + v))
+                exp = c + (v @ Hm[:d, :d].T) / (v @ Hm[d, :d] + 1.0)[:, None]
+                err = float(np.abs(got - exp).max())
+                ctx.require(err < 1e-8 * (1 + np.abs(exp).max()), "about_centre", "offsets_not_transformed_plainly_projective",
+                            lambda: "err %.3g" % err)
+                ctx.require(walker.digest(obj, skip=("__empty__",)) == before, "about_centre", "object_modified_transform")
+                ctx.state("about", "projective", kind, d)
+                return
             else:
                 A = lin(g)
                 t = transform_about_centre(obj, A)
@@ -478,7 +503,29 @@ class RotationRng(Machine):
             ctx.require(float(np.abs(got2 - x * f0).max()) < 1e-12 * 30, "scale_factory", "tracks_callers_array",
                         "editing the array passed to Scale() changed the transform")
             ctx.probe("passed_array_mutated")
+        self._used_about_a_point(t, d, g, "scale_factory")
         ctx.state("scale", how, d)
+
+    def _used_about_a_point(self, t, d, g, what):
+        """The hand-written 'about a point' idiom - translate there, transform, translate back, each step a non-in-place
+        composition - uses what a convenience constructor returned as an operand; afterwards that object still is
+        what the constructor promised."""
+        ctx = self.ctx
+        h0 = np.array(t.h_matrix, dtype=float)
+        c = g.uniform(-5, 5, size=d)
+        try:
+            about = Translation(-c).compose_before(t).compose_before(Translation(c))
+            t.compose_before(Translation(c))
+            t.compose_after(Translation(-c))
+        except Exception as ex:
+            ctx.fail(what, "composition_with_a_translation_raised", repr(ex))
+            return
+        ctx.probe("constructor_result_used_in_about_a_point_idiom")
+        ctx.require(np.array_equal(np.asarray(t.h_matrix, dtype=float), h0), what, "returned_transform_changed_by_being_composed",
+                    lambda: "after non-in-place compositions with translations the %s holds %r (was %r)" % (type(t).__name__, np.asarray(t.h_matrix).tolist(), h0.tolist()))
+        got = np.asarray(about.apply(c[None, :].copy()))[0]
+        ctx.require(float(np.abs(got - c).max()) < 1e-9 * (1 + np.abs(c).max()), what, "about_a_point_idiom_moves_the_point",
+                    lambda: "%r -> %r" % (c.tolist(), got.tolist()))
 
     def _probes(self, deg, in_deg):
         if deg < 0:
